@@ -129,19 +129,42 @@ type c02ImplRun struct {
 	// signature suffix and a description.
 	BadSig, Bad string
 
+	// Post: reuse mode only, see c02RunImplReuse.
+	Post []c02ImplPost
+
 	cfg     c02Cfg
 	d       *Decoder
 	loading bool
+	sink    *[]c02RefField
 }
 
 func (r *c02ImplRun) OK() bool { return r.Err == nil }
 
+// c02ImplPost is what the same Decoder did with one block presented after the
+// first rejected block (reuse mode only).
+type c02ImplPost struct {
+	Fields []c02RefField
+	Err    error
+	ErrAt  string
+}
+
 // c02RunImpl builds a fresh Decoder under cfg, preloads it, and feeds blocks;
 // each block is a list of chunks, one Write per chunk, then Close. It stops at
-// the first error (the decoder is unusable afterwards). Every chunk is handed
-// over in a cap==len copy that is overwritten as soon as Write returns: the
-// decoder does not own p.
+// the first error. Every chunk is handed over in a cap==len copy that is
+// overwritten as soon as Write returns: the decoder does not own p.
 func c02RunImpl(cfg c02Cfg, blocks [][][]byte) *c02ImplRun {
+	return c02RunImplReuse(cfg, blocks, false)
+}
+
+// c02RunImplReuse is c02RunImpl, except that with reuse set the Decoder is not
+// thrown away at the first rejected block: the block is ended with Close (if
+// it was Write that failed; the result of that Close is ignored) and every
+// remaining block is presented to the same Decoder, each as a new header
+// block. Everything recorded up to and including the first error (Fields, Err,
+// ErrAt, ErrBlk, Blocks) is exactly what c02RunImpl records; what happens
+// afterwards goes to Post, one entry per later block. The per-step invariants
+// are checked throughout.
+func c02RunImplReuse(cfg c02Cfg, blocks [][][]byte, reuse bool) *c02ImplRun {
 	r := &c02ImplRun{cfg: cfg, loading: true}
 	d := NewDecoder(cfg.Tab, r.emit)
 	r.d = d
@@ -156,44 +179,77 @@ func c02RunImpl(cfg c02Cfg, blocks [][][]byte) *c02ImplRun {
 	r.loading = false
 	d.SetMaxStringLength(cfg.MaxStr)
 	r.inv("after preload")
+	r.sink = &r.Fields
 	for bi, blk := range blocks {
-		fed := 0
-		for _, chunk := range blk {
-			p := c02Exact(chunk)
-			n, err := d.Write(p)
-			for i := range p {
-				p[i] = 0xaa
+		if r.Err != nil {
+			// reuse after a rejected block
+			r.Post = append(r.Post, c02ImplPost{})
+			post := &r.Post[len(r.Post)-1]
+			r.sink = &post.Fields
+			var stop bool
+			post.Err, post.ErrAt, stop = r.feed(blk, bi+1 < len(blocks))
+			if stop {
+				break
 			}
-			r.inv("after Write")
-			fed += len(chunk)
-			if d.saveBuf.Len() > fed {
-				// saveBuf holds an unparsed suffix of this block; anything larger
-				// is runaway growth (stop before it exhausts memory)
-				r.bad("savebuf-larger-than-block", "after %d bytes of the block saveBuf holds %d bytes", fed, d.saveBuf.Len())
-				r.Err, r.ErrAt, r.ErrBlk = fmt.Errorf("harness: stopped feeding"), "write", bi
-				return r.finish()
-			}
-			if err != nil {
-				r.Err, r.ErrAt, r.ErrBlk = err, "write", bi
-				return r.finish()
-			}
-			if n != len(chunk) {
-				r.bad("write-count", "Write of %d bytes returned n=%d, nil", len(chunk), n)
-			}
-			if d.saveBuf.Len() > 0 {
-				r.Resumed = true
-			}
+			continue
 		}
-		err := d.Close()
-		r.SaveLen = d.saveBuf.Len()
-		r.inv("after Close")
+		err, at, stop := r.feed(blk, reuse && bi+1 < len(blocks))
 		if err != nil {
-			r.Err, r.ErrAt, r.ErrBlk = err, "close", bi
-			return r.finish()
+			r.Err, r.ErrAt, r.ErrBlk = err, at, bi
+			if !reuse || stop {
+				break
+			}
+			continue
 		}
 		r.Blocks++
 	}
 	return r.finish()
+}
+
+// feed presents one header block: one Write per chunk, then Close. It returns
+// the first error and where it occurred; stop means the harness refuses to
+// feed this Decoder any further. With closeAfterWriteErr, a block that Write
+// rejected is still ended with Close so that the Decoder can be given a new
+// block.
+func (r *c02ImplRun) feed(blk [][]byte, closeAfterWriteErr bool) (err error, at string, stop bool) {
+	d := r.d
+	fed := 0
+	for _, chunk := range blk {
+		p := c02Exact(chunk)
+		n, err := d.Write(p)
+		for i := range p {
+			p[i] = 0xaa
+		}
+		r.inv("after Write")
+		fed += len(chunk)
+		if d.saveBuf.Len() > fed {
+			// saveBuf holds an unparsed suffix of this block; anything larger
+			// is runaway growth (stop before it exhausts memory) or bytes of
+			// an earlier block
+			r.bad("savebuf-larger-than-block", "after %d bytes of the block saveBuf holds %d bytes", fed, d.saveBuf.Len())
+			return fmt.Errorf("harness: stopped feeding"), "write", true
+		}
+		if err != nil {
+			if closeAfterWriteErr {
+				d.Close()
+				r.inv("after Close following a failed Write")
+			}
+			return err, "write", false
+		}
+		if n != len(chunk) {
+			r.bad("write-count", "Write of %d bytes returned n=%d, nil", len(chunk), n)
+		}
+		if d.saveBuf.Len() > 0 {
+			r.Resumed = true
+		}
+	}
+	err = d.Close()
+	r.SaveLen = d.saveBuf.Len()
+	r.inv("after Close")
+	if err != nil {
+		return err, "close", false
+	}
+	return nil, "", false
 }
 
 func (r *c02ImplRun) bad(sig, format string, a ...any) {
@@ -209,7 +265,7 @@ func (r *c02ImplRun) emit(f HeaderField) {
 	if r.cfg.MaxStr != 0 && (len(f.Name) > r.cfg.MaxStr || len(f.Value) > r.cfg.MaxStr) {
 		r.bad("emits-over-max-string-length", "emitted %q=%q with SetMaxStringLength(%d)", f.Name, f.Value, r.cfg.MaxStr)
 	}
-	r.Fields = append(r.Fields, c02RefField{f.Name, f.Value, f.Sensitive})
+	*r.sink = append(*r.sink, c02RefField{f.Name, f.Value, f.Sensitive})
 }
 
 // inv checks the white-box table invariants.
